@@ -14,6 +14,7 @@ Bound == /\ Len(msgs) <= MsgBound
 AllTopos == Topos
 QuickTopos == {"direct", "ghosts"}
 LiveTopos == {"direct", "partial"}
+NoRelayTopos == {"direct", "partial", "ghosts"}
 \* quick configurations leave retrievals out (only a retrieval changes the serving node A)
 NoRetrieve == ns'["A"] = ns["A"]
 MCSpec == (Init /\ par.topo \in MCTopos) /\ [][Next]_vars
